@@ -344,6 +344,18 @@ class SList(Mutable):
         return "SList(%r)" % (self.items,)
 
 
+class SGList(object):
+    """Immutable guarded sequence: items are (guard, value); guard is True or
+    a z3 Bool saying whether the item is present (snapshot of a dict with
+    symbolic presence bits, or a comprehension over one)."""
+
+    def __init__(self, items):
+        self.items = list(items)
+
+    def __repr__(self):
+        return "SGList(%r)" % (self.items,)
+
+
 MISSING = object()
 
 
@@ -681,14 +693,36 @@ class Interp(object):
         return SArr(buf, 0, n, dtype or ("f8" if kind == "real" else "i4"))
 
     # ---- solver helpers ---------------------------------------------------
-    def _check(self, extra):
-        s = z3.Solver()
-        s.set("timeout", self.solver_timeout)
-        for p in self.pc:
+    def _sync_solver(self):
+        """Incremental solver mirroring self.pc (one push level per conjunct)."""
+        s = getattr(self, "_solver", None)
+        if s is None:
+            s = self._solver = z3.Solver()
+            s.set("timeout", self.solver_timeout)
+            self._asserted = []
+        k = 0
+        asserted = self._asserted
+        pc = self.pc
+        n = min(len(asserted), len(pc))
+        while k < n and asserted[k] is pc[k]:
+            k += 1
+        if k < len(asserted):
+            s.pop(len(asserted) - k)
+            del asserted[k:]
+        for p in pc[k:]:
+            s.push()
             s.add(p)
+            asserted.append(p)
+        return s
+
+    def _check(self, extra):
+        s = self._sync_solver()
+        s.push()
         for e in extra:
             s.add(e)
-        return s.check()
+        r = s.check()
+        s.pop()
+        return r
 
     def implied(self, cond):
         """pc => cond is valid?"""
@@ -712,6 +746,11 @@ class Interp(object):
             if goal:
                 return
             goal = z3.BoolVal(False)
+        if kind in getattr(self, "assume_sides", ()):
+            # stated value-domain precondition of the function under contract
+            self.pc.append(goal)
+            self.__dict__.setdefault("assumed_sides", []).append((kind, where or self.where()))
+            return
         self.side.append((kind, list(self.pc), goal, where or self.where()))
 
     def discharge_sides(self, reg, prefix, function=None, replay=None):
@@ -790,6 +829,9 @@ class Interp(object):
             d = True
             self.pending.append(self.decisions[:self.dpos] + [False])
             self.decisions.append(True)
+            fs = self.__dict__.setdefault("fork_sites", {})
+            w = self.where()
+            fs[w] = fs.get(w, 0) + 1
         self.dpos += 1
         self.pc.append(cond if d else z3.Not(cond))
         return d
@@ -805,6 +847,7 @@ class Interp(object):
             self.decisions = list(prefix)
             self.dpos = 0
             self.pc = []
+            self._solver = None
             self.heap = Heap()
             self.frames = []
             self.ghost = {}
@@ -885,14 +928,43 @@ class Interp(object):
             return self.call(lifted, args, kwargs)
         if isinstance(f, type):
             return self.instantiate(f, args, kwargs)
-        if self._concrete_ok(f, args, kwargs):
+        cargs = [self.concretize(a) for a in args]
+        ckw = {k: self.concretize(v) for k, v in kwargs.items()}
+        if self._concrete_ok(f, cargs, ckw):
             try:
-                return f(*args, **kwargs)
+                r = f(*cargs, **ckw)
             except IRaise:
                 raise
             except Exception as exc:
                 raise IRaise(exc)
+            return self.wrap_fresh(f, r)
         raise OutsideSubset("call of %r with symbolic arguments has no model" % (f,))
+
+    FRESH = {"copy", "sorted", "list", "dict", "split", "keys", "items", "values", "deepcopy"}
+
+    def concretize(self, v):
+        """Fully concrete SList/SDict -> list/dict (for calls of live functions)."""
+        if isinstance(v, SList):
+            items = [self.concretize(x) for x in v.items]
+            if all(not isinstance(x, (Sym, SList, SDict, SArr, SObj)) for x in items):
+                return items
+            return v
+        if isinstance(v, SDict):
+            if all(p is True for p, _ in v.entries.values()):
+                vals = {k: self.concretize(x) for k, (p, x) in v.entries.items()}
+                if all(not isinstance(x, (Sym, SList, SDict, SArr, SObj)) for x in vals.values()):
+                    return vals
+            return v
+        return v
+
+    def wrap_fresh(self, f, r):
+        name = getattr(f, "__name__", "")
+        if name in self.FRESH:
+            if type(r) is dict or type(r).__name__ == "OrderedDict":
+                return self.new_dict({k: (True, v) for k, v in r.items()})
+            if type(r) is list:
+                return self.new_list(r)
+        return r
 
     def _concrete_ok(self, f, args, kwargs):
         def conc(v):
@@ -1241,7 +1313,7 @@ class Interp(object):
                 calls2 = self.trace_calls[snap[5]:]
                 if calls1 or calls2:
                     raise MergeFail("contract calls inside a merged branch")
-                merged = self._merge_snaps(c, s1, s2)
+                merged = self._merge_snaps(c, s1, s2, snap)
             except (NeedFork, MergeFail, IRaise, _Return, _Break, _Continue, Infeasible):
                 del self.frames[nframes:]
                 self.restore(snap)
@@ -1259,9 +1331,10 @@ class Interp(object):
         self.side.extend(side2)
         return True
 
-    def _merge_snaps(self, c, s1, s2):
+    def _merge_snaps(self, c, s1, s2, s0=None):
         (n1, h1), f1, _, g1, _, _ = s1
         (n2, h2), f2, _, g2, _, _ = s2
+        f0 = {id(f): v for f, v in s0[1]} if s0 is not None else {}
         # objects allocated inside an arm cannot be identified across arms
         # unless unreachable afterwards; we allow them only if not referenced
         base = min(n1, n2)
@@ -1277,12 +1350,17 @@ class Interp(object):
                 raise MergeFail("frame mismatch")
             mv = {}
             for k in set(v1) | set(v2):
-                if k not in v1 or k not in v2:
-                    # variable defined in one arm only: keep it if later
-                    # unused; mark as poison
-                    mv[k] = self._merge_value(c, v1.get(k, _UNDEF), v2.get(k, _UNDEF), base)
-                else:
-                    mv[k] = self._merge_value(c, v1[k], v2[k], base)
+                # a local that cannot be merged (defined in one arm only, or
+                # bound to different non-numeric values) becomes poison:
+                # reading it before it is re-assigned leaves the subset
+                a, b = v1.get(k, _UNDEF), v2.get(k, _UNDEF)
+                try:
+                    mv[k] = self._merge_value(c, a, b, base)
+                except MergeFail:
+                    pre = f0.get(id(f), {}).get(k, _UNDEF)
+                    if a is not pre and b is not pre:
+                        raise          # assigned differently in both arms: fork
+                    mv[k] = _Poison(None)
             merged_frames.append((f, mv))
         ghost = {}
         for k in set(g1) | set(g2):
@@ -1303,7 +1381,7 @@ class Interp(object):
         if a is _UNDEF or b is _UNDEF:
             return _Poison(a if b is _UNDEF else b)
         if isinstance(a, _Poison) or isinstance(b, _Poison):
-            raise MergeFail("poison")
+            return a if isinstance(a, _Poison) else b
         if is_scalar(a) and is_scalar(b):
             if not is_sym(a) and not is_sym(b):
                 try:
@@ -1399,6 +1477,8 @@ class Interp(object):
         from . import pymodels as _pm
         if isinstance(itv, _pm.DictView):
             return self.for_dict(s, frame, itv.d, what=itv.what)
+        if isinstance(itv, SGList):
+            return self.for_guarded(s, frame, itv.items)
         if isinstance(itv, SObj) and self.getattr(itv, "__iter__", None) is not None:
             it = self.call(self.getattr(itv, "__iter__"), [])
             nxt = self.getattr(it, "__next__")
@@ -1445,11 +1525,18 @@ class Interp(object):
 
     def for_dict(self, s, frame, d, what="keys"):
         """Iterate a dict with symbolic presence bits: the body runs guarded."""
+        items = []
         for key in list(d.entries.keys()):
             p, v = d.entries[key]
             if p is False:
                 continue
-            x = {"items": (key, v), "keys": key, "values": v}[what]
+            items.append((p, {"items": (key, v), "keys": key, "values": v}[what]))
+        return self.for_guarded(s, frame, items)
+
+    def for_guarded(self, s, frame, items):
+        for p, x in items:
+            if p is False:
+                continue
             if p is True:
                 self.assign(s.target, x, frame)
                 try:
@@ -1466,7 +1553,13 @@ class Interp(object):
                     pass
             if not self.try_merge(p, body, lambda: None):
                 if self.decide(p):
-                    body()
+                    try:
+                        self.assign(s.target, x, frame)
+                        self.exec_block(s.body, frame)
+                    except _Continue:
+                        pass
+                    except _Break:
+                        return
         self.exec_block(s.orelse, frame)
 
     def iterate(self, v):
@@ -1478,6 +1571,12 @@ class Interp(object):
         from . import pymodels as _pm
         if isinstance(v, _pm.DictView):
             return _pm.dictview_items(self, v)
+        if isinstance(v, SGList):
+            out = []
+            for p, x in v.items:
+                if p is True or (p is not False and self.decide(p)):
+                    out.append(x)
+            return out
         if isinstance(v, SDict):
             out = []
             for k, (p, _) in v.entries.items():
@@ -1836,14 +1935,66 @@ class Interp(object):
         return self.eval_index(e, frame)
 
     def e_ListComp(self, e, frame):
+        g = self.guarded_comp(e, frame)
+        if g is not None:
+            return g
         out = []
         self.comp(e.generators, 0, frame, lambda fr: out.append(self.eval(e.elt, fr)))
         return self.new_list(out)
 
     def e_GeneratorExp(self, e, frame):
+        g = self.guarded_comp(e, frame)
+        if g is not None:
+            return g
         out = []
         self.comp(e.generators, 0, frame, lambda fr: out.append(self.eval(e.elt, fr)))
         return tuple(out)
+
+    def guarded_comp(self, e, frame):
+        """[elt for target in <dict view / guarded list with symbolic guards>]
+        -> SGList; the element expression is evaluated under the guard."""
+        if len(e.generators) != 1:
+            return None
+        g = e.generators[0]
+        from . import pymodels as _pm
+        src = self.eval(g.iter, frame)
+        if isinstance(src, _pm.DictView):
+            items = [(p, {"items": (k, v), "keys": k, "values": v}[src.what])
+                     for k, (p, v) in src.d.entries.items() if p is not False]
+        elif isinstance(src, SDict):
+            items = [(p, k) for k, (p, v) in src.entries.items() if p is not False]
+        elif isinstance(src, SGList):
+            items = list(src.items)
+        else:
+            self._comp_src = src
+            return None
+        fr = Frame(frame.module, frame, frame.func)
+        out = []
+        for p, x in items:
+            self.assign(g.target, x, fr)
+            npc = len(self.pc)
+            if p is not True:
+                self.pc.append(p)
+            try:
+                guard = p
+                skip = False
+                for cond in g.ifs:
+                    c = self.truth(self.eval(cond, fr))
+                    if isinstance(c, bool):
+                        if not c:
+                            skip = True
+                            break
+                    else:
+                        guard = _simp_bool(z3.And(_b(guard), c))
+                        self.pc.append(c)
+                if not skip and guard is not False:
+                    out.append((guard, self.eval(e.elt, fr)))
+            finally:
+                del self.pc[npc:]
+        if all(p is True for p, _ in out):
+            vals = [v for _, v in out]
+            return self.new_list(vals) if isinstance(e, ast.ListComp) else tuple(vals)
+        return SGList(out)
 
     def e_SetComp(self, e, frame):
         out = []
@@ -1851,6 +2002,14 @@ class Interp(object):
         return set(out)
 
     def e_DictComp(self, e, frame):
+        pair = ast.Tuple(elts=[e.key, e.value], ctx=ast.Load())
+        fake = ast.ListComp(elt=pair, generators=e.generators)
+        ast.copy_location(fake, e)
+        ast.fix_missing_locations(fake)
+        g = self.guarded_comp(fake, frame)
+        if g is not None:
+            from . import pymodels as _pm
+            return _pm.builtin_dict(self, [g], {})
         d = self.new_dict()
 
         def add(fr):
@@ -1865,7 +2024,12 @@ class Interp(object):
             emit(frame)
             return
         g = gens[i]
-        for x in self.iterate(self.eval(g.iter, frame)):
+        if i == 0 and hasattr(self, "_comp_src"):
+            srcv = self._comp_src
+            del self._comp_src
+        else:
+            srcv = self.eval(g.iter, frame)
+        for x in self.iterate(srcv):
             self.assign(g.target, x, frame)
             ok = True
             for cond in g.ifs:
